@@ -39,3 +39,6 @@ Proof. destruct x; cbn; intro H; try discriminate. eauto. Qed.
 Lemma bind_no_panic {A B} (x : outcome A) (f : A -> outcome B) :
   no_panic x -> (forall a, x = Ok a -> no_panic (f a)) -> no_panic (bind x f).
 Proof. destruct x; cbn; intros H1 H2; auto. Qed.
+
+Lemma ok_inj {A} (a b : A) : Ok a = Ok b -> a = b.
+Proof. intro H. inversion H. reflexivity. Qed.
